@@ -964,6 +964,54 @@ func getOperatorPrecedence(operator string) int {
 	}
 }
 
+// peekBinaryOperator reports the binary operator at the current position, if
+// there is one, without consuming it. Two-word operators are returned as one.
+func (p *Parser) peekBinaryOperator() (string, bool) {
+	if p.tokenIndex >= len(p.tokens) {
+		return "", false
+	}
+
+	token := p.tokens[p.tokenIndex]
+	if token.Type == TOKEN_OPERATOR {
+		return token.Value, true
+	}
+	if token.Type != TOKEN_NAME {
+		return "", false
+	}
+
+	nextIs := func(word string) bool {
+		return p.tokenIndex+1 < len(p.tokens) &&
+			p.tokens[p.tokenIndex+1].Type == TOKEN_NAME &&
+			p.tokens[p.tokenIndex+1].Value == word
+	}
+
+	switch token.Value {
+	case "and", "or", "in", "matches":
+		return token.Value, true
+	case "not":
+		if nextIs("in") {
+			return "not in", true
+		}
+		return "not", true
+	case "is":
+		if nextIs("not") {
+			return "is not", true
+		}
+		return "is", true
+	case "starts":
+		if nextIs("with") {
+			return "starts with", true
+		}
+		return "starts", true
+	case "ends":
+		if nextIs("with") {
+			return "ends with", true
+		}
+		return "ends", true
+	}
+	return "", false
+}
+
 // Parse binary expressions (a + b, a and b, a in b, etc.)
 func (p *Parser) parseBinaryExpression(left Node) (Node, error) {
 	token := p.tokens[p.tokenIndex]
@@ -1126,67 +1174,25 @@ func (p *Parser) parseBinaryExpression(left Node) (Node, error) {
 		return nil, err
 	}
 
-	// Create the current binary node
+	// As long as the operator that follows binds tighter than this one it takes
+	// the right operand first (1 + 2 * 3 * 4 is 1 + ((2 * 3) * 4)). An operator of
+	// the same or lower precedence is left to the caller, which makes operators
+	// of equal precedence group from the left.
+	for {
+		nextOperator, ok := p.peekBinaryOperator()
+		if !ok || getOperatorPrecedence(nextOperator) <= precedence {
+			break
+		}
+
+		right, err = p.parseBinaryExpression(right)
+		if err != nil {
+			return nil, err
+		}
+	}
+
+	// A conditional operator that follows applies to the whole expression and is
+	// handled by parseExpression once all binary operators are consumed
 	binaryNode := NewBinaryNode(operator, left, right, line)
-
-	// Check for another binary operator
-	if p.tokenIndex < len(p.tokens) &&
-		(p.tokens[p.tokenIndex].Type == TOKEN_OPERATOR ||
-			(p.tokens[p.tokenIndex].Type == TOKEN_NAME &&
-				(p.tokens[p.tokenIndex].Value == "and" ||
-					p.tokens[p.tokenIndex].Value == "or" ||
-					p.tokens[p.tokenIndex].Value == "in" ||
-					p.tokens[p.tokenIndex].Value == "not" ||
-					p.tokens[p.tokenIndex].Value == "is" ||
-					p.tokens[p.tokenIndex].Value == "matches" ||
-					p.tokens[p.tokenIndex].Value == "starts" ||
-					p.tokens[p.tokenIndex].Value == "ends"))) {
-
-		// Get the next operator and its precedence
-		nextOperator := p.tokens[p.tokenIndex].Value
-		if p.tokens[p.tokenIndex].Type == TOKEN_NAME {
-			// Handle multi-word operators
-			if nextOperator == "not" && p.tokenIndex+1 < len(p.tokens) &&
-				p.tokens[p.tokenIndex+1].Type == TOKEN_NAME &&
-				p.tokens[p.tokenIndex+1].Value == "in" {
-				nextOperator = "not in"
-			} else if nextOperator == "is" && p.tokenIndex+1 < len(p.tokens) &&
-				p.tokens[p.tokenIndex+1].Type == TOKEN_NAME &&
-				p.tokens[p.tokenIndex+1].Value == "not" {
-				nextOperator = "is not"
-			} else if nextOperator == "starts" && p.tokenIndex+1 < len(p.tokens) &&
-				p.tokens[p.tokenIndex+1].Type == TOKEN_NAME &&
-				p.tokens[p.tokenIndex+1].Value == "with" {
-				nextOperator = "starts with"
-			} else if nextOperator == "ends" && p.tokenIndex+1 < len(p.tokens) &&
-				p.tokens[p.tokenIndex+1].Type == TOKEN_NAME &&
-				p.tokens[p.tokenIndex+1].Value == "with" {
-				nextOperator = "ends with"
-			}
-		}
-
-		nextPrecedence := getOperatorPrecedence(nextOperator)
-
-		// If the next operator has higher precedence, we need to parse it first
-		if nextPrecedence > precedence {
-			// Replace the right side with a binary expression
-			newRight, err := p.parseBinaryExpression(right)
-			if err != nil {
-				return nil, err
-			}
-
-			// Update the binary node with the new right side
-			binaryNode = NewBinaryNode(operator, left, newRight, line)
-		}
-	}
-
-	// Check for ternary operator after parsing the binary expression
-	if p.tokenIndex < len(p.tokens) &&
-		p.tokens[p.tokenIndex].Type == TOKEN_PUNCTUATION &&
-		p.tokens[p.tokenIndex].Value == "?" {
-		// This is a conditional expression, use the binary node as the condition
-		return p.parseConditionalExpression(binaryNode)
-	}
 
 	return binaryNode, nil
 }
